@@ -624,6 +624,9 @@ type Contract struct {
 	Opaque     bool
 	SkipSafe   map[string]bool
 	NoInline   bool
+	// IfaceTyping: a non-nil value read from a field of (non-empty) interface type implements
+	// that interface (Go's typing guarantee, stated as an assumption at every such read)
+	IfaceTyping bool
 	PureCalls  []string
 	Sweep      bool // implicit contract of the zero-annotation safety sweep
 }
@@ -674,7 +677,7 @@ var blockKeywords = map[string]bool{"ghostvar": true, "ghostfield": true, "immut
 var clauseKeywords = map[string]bool{
 	"always": true, "requires": true, "ensures": true, "modifies": true, "reads": true, "writes": true, "fills": true, "loop": true, "at": true, "panics_when": true,
 	"prop": true, "pure": true, "uses": true, "abstract": true, "counts": true, "trusted": true, "may_panic": true,
-	"induct": true, "trigger": true, "inline": true, "opaque": true, "nosafe": true, "noinline": true, "purecall": true,
+	"induct": true, "trigger": true, "inline": true, "opaque": true, "nosafe": true, "noinline": true, "purecall": true, "ifacetyping": true,
 }
 
 // readContractFile parses the //@ lines of one file.
@@ -936,6 +939,8 @@ func readContractFile(path, pkgPath string) (*ContractFile, error) {
 		case "noinline":
 			// callees without a contract are never inlined: they are unknown calls
 			cur.NoInline = true
+		case "ifacetyping":
+			cur.IfaceTyping = true
 		case "nosafe":
 			for _, m := range strings.Fields(rest) {
 				cur.SkipSafe[m] = true
